@@ -15,8 +15,10 @@ namespace sim
    using io_top = io::g_unsigned;
 #elif IO_PROG == 4
    using io_top = io::g_signed;
-#else
+#elif IO_PROG == 5
    using io_top = io::g_chunked;
+#else
+   using io_top = io::g_states;
 #endif
 
    using io_in = io_input< IO_INPUT >::type;
